@@ -4,6 +4,11 @@ Trees: parsed documents and trees reached by edit histories through the public A
 slot, comments, PIs).  For every node, a grid of ambient filters D (default_filters[-1]) and passed filters F:
   (a) correspondence: every navigation result of the real API == Conc/CNav.v evaluated in Coq on the dumped concrete
       structure (lxml slots + chains of text objects), for all D of the grid;
+  Histories are stateful: before every edit step all navigation relations are queried on the held node objects (results
+  discarded), the final queries are made ON THE SAME OBJECTS, so a relation must describe the current tree, not a
+  remembered one; fixed histories move subtrees to another level, insert / remove siblings before held nodes and merge
+  text nodes.  A few relations are also queried in the body of loops over suspended iterators (they must see the caller's
+  filters), and one case holds only a later member of a tail text chain across gc.collect().
   (b) direct search: the relations the property states, checked on the real API results, with Tree/ANav.v evaluated in
       Coq on the plain tree (read through iterate_children only) as the oracle: the routines whose theorem is unguarded
       (UNGUARDED below) under all ambient filters, the others under none, the library default (tag or text), tags only.
@@ -707,7 +712,7 @@ def run(ctx, args):
     return ctx.finish(
         rule="trees: %d parsed documents + parentless comment / PI / text node / element + documents with prologue and epilogue nodes (root-level siblings) + trees reached by random histories of 1-8 public-API edits (append/prepend/"
              "insert/add_following/add_preceding/detach/replace/merge_text_nodes with strings, TextNodes, tags, comments, "
-             "PIs, tag() definitions, re-attached detached subtrees); on every node: 27 navigation routines under 6 ambient "
+             "PIs, tag() definitions, re-attached detached subtrees, moves of subtrees to another parent / level; all relations are queried on the held objects before every step and again after the last one) + fixed move / sibling-insertion / merge histories + queries inside loops over suspended iterators + a tail text chain member held across gc.collect(); on every node: 27 navigation routines under 6 ambient "
              "filters x 5 passed filters, all indices -(k+1)..k and 6 slices; correspondence against Conc/CNav.v for all, "
              "direct comparison with Tree/ANav.v under the ambient filters none/default/tags. evaluations = API results "
              "compared. Non-trivial = tree with more than one node; distinct by concrete structure (ids, slots, chains)."
